@@ -1081,6 +1081,7 @@ class CallMixin:
     def call_method(self, st, mr: MethodRef, args, kw, node):
         recv = mr.recv_val
         name = mr.name
+        self._cur_st = st          # (for element / key coercions that may narrow an Optional by the path condition)
         if isinstance(recv.t, TOpt):
             self.raise_(st, "AttributeError", opt_isnone(recv))
             st = st.assume(z3.Not(opt_isnone(recv)))
@@ -1127,6 +1128,8 @@ class CallMixin:
         a = self.as_value(a)
         if isinstance(recv.t.elem, TOpaque) and recv.t.elem.nm == "$empty":
             recv = vals.empty_set(a.t)
+        if isinstance(a.t, TOpt) and not isinstance(recv.t.elem, TOpt) and getattr(self, "_cur_st", None) is not None:
+            return recv, self.narrow(self._cur_st, a, recv.t.elem)       # Optional element the path condition shows to be not None
         return recv, coerce(a, recv.t.elem)
 
     def _other_set(self, st, recv, other):
@@ -1216,6 +1219,8 @@ class CallMixin:
     # -- dict ------------------------------------------------------------------
     def _key(self, recv, a):
         a = self.as_value(a)
+        if isinstance(a.t, TOpt) and not isinstance(recv.t.k, TOpt) and getattr(self, "_cur_st", None) is not None:
+            return self.narrow(self._cur_st, a, recv.t.k)
         return coerce(a, recv.t.k)
 
     def map_get(self, st, recv, args, kw, node):
